@@ -364,6 +364,11 @@ def zero_size(u, name, seen=None):
     if s.holder:
         return False
     for f in s.fields:
+        if f.go_text is not None:
+            # fields with an explicit Go type (ignored fields, types outside the schema language)
+            if f.go_text.replace(' ', '') in ('struct{}', '[0]byte', '[0]int'):
+                continue
+            return False
         if f.ty is None:
             return False
         if f.ty[0] != 'struct' or not zero_size(u, f.ty[1], seen | {name}):
